@@ -1,10 +1,54 @@
-(* C11 -- uncommitted changes are never swept into the bump commit. (theorems are added as they are proved) *)
-From Coq Require Import List NArith.
-From BV Require Import Lib.PyStr Model.Vcs.
+(* C11 -- uncommitted changes are never swept into the bump commit. *)
+From Coq Require Import List Bool NArith.
+From BV Require Import Lib.PyStr Model.V2 Model.Vcs Proofs.VcsFacts.
 Import ListNotations.
+Local Open Scope N_scope.
+
+(* porcelain_line xy path = xy ++ " " ++ path ;
+   wf_path p = p is not empty, has no surrounding white space, no line break, no " -> " inside, and does not start with "-> " *)
+Theorem C11_status_single_line : forall xy path required,
+  length xy = 2%nat -> (forall c, In c xy -> is_linebreak c = false) -> wf_path path ->
+  dirty_files (porcelain_line xy path ++ [10]) required =
+  if mem_str path required || negb (eqb_str (strip_ws xy) s_untracked) then [path] else [].
+Proof. exact status_single_line. Qed.
+Print Assumptions C11_status_single_line.
+
+Theorem C11_untracked_unrelated_inert : forall path required, wf_path path -> mem_str path required = false ->
+  forall allow, assert_not_dirty (porcelain_line s_untracked path ++ [10]) required allow = DirtyOk.
+Proof. exact untracked_unrelated_inert. Qed.
+Print Assumptions C11_untracked_unrelated_inert.
+
+Theorem C11_dirty_pattern_file_blocks : forall xy path required allow,
+  length xy = 2%nat -> (forall c, In c xy -> is_linebreak c = false) -> wf_path path -> mem_str path required = true ->
+  assert_not_dirty (porcelain_line xy path ++ [10]) required allow = DirtyAbort.
+Proof. exact dirty_pattern_file_blocks. Qed.
+Print Assumptions C11_dirty_pattern_file_blocks.
+
+Theorem C11_abort_rule : forall out required allow,
+  assert_not_dirty out required allow = DirtyAbort <->
+  ((allow = false /\ dirty_files out required <> []) \/ existsb (fun f => mem_str f required) (dirty_files out required) = true).
+Proof. exact abort_rule. Qed.
+Print Assumptions C11_abort_rule.
+
+(* why wf_path excludes a path starting with "-> " : the line " M -> x" is read as a rename with an empty source *)
+Example C11_wf_path_needs_prefix_condition :
+  let p := [45;62;32;120] in
+  (strip_ws p = p /\ forallb (fun c => negb (is_linebreak c)) p = true /\ str_in [32;45;62;32] p = false) /\
+  dirty_files (porcelain_line s_untracked p ++ [10]) [] = [] /\
+  dirty_files (porcelain_line [32;77] p ++ [10]) [] = [[]; [120]].
+Proof. exact wf_path_needs_prefix_condition. Qed.
+Print Assumptions C11_wf_path_needs_prefix_condition.
+
 (* " M a.txt" : the pattern file is reported dirty, and --allow-dirty does not let it through *)
 Example C11_modified_pattern_file :
-  dirty_files [32;77;32;97;46;116;120;116;10]%N [[97;46;116;120;116]%N] = [[97;46;116;120;116]%N] /\
-  assert_not_dirty [32;77;32;97;46;116;120;116;10]%N [[97;46;116;120;116]%N] true = DirtyAbort.
+  dirty_files [32;77;32;97;46;116;120;116;10] [[97;46;116;120;116]] = [[97;46;116;120;116]] /\
+  assert_not_dirty [32;77;32;97;46;116;120;116;10] [[97;46;116;120;116]] true = DirtyAbort.
 Proof. vm_compute. split; reflexivity. Qed.
 Print Assumptions C11_modified_pattern_file.
+
+(* "?? b.txt" next to the pattern file a.txt : ignored, with or without --allow-dirty *)
+Example C11_untracked_other_file :
+  dirty_files [63;63;32;98;46;116;120;116;10] [[97;46;116;120;116]] = [] /\
+  assert_not_dirty [63;63;32;98;46;116;120;116;10] [[97;46;116;120;116]] false = DirtyOk.
+Proof. vm_compute. split; reflexivity. Qed.
+Print Assumptions C11_untracked_other_file.
